@@ -488,6 +488,9 @@ func (p *prover) indAxioms(x sym.Call, facts []sym.Poly, emit func(sym.Expr), at
 			continue
 		}
 		params := indicatorParamNames(p.c.P, typ)
+		if pn, ok := pinnedParams[typ]; ok && len(pn) == len(params) {
+			params = pn
+		}
 		if len(params) != len(x.Args) {
 			return
 		}
@@ -612,10 +615,7 @@ func (c *Ctx) rangeClaims(fi *load.FuncInfo, r *shape.Result, rc rangeClaim, pro
 	for _, ps := range r.ParamStreams {
 		params = append(params, ps.Param)
 	}
-	env := &specEnv{r: r, params: map[string]bool{}, locals: map[string]bool{}}
-	for _, pn := range params {
-		env.params[pn] = true
-	}
+	env := &specEnv{r: r, params: specParams(fi, params), locals: map[string]bool{}}
 	sub := map[string]sym.Expr{}
 	for i, o := range outs {
 		n := fmt.Sprintf("out%d", i)
@@ -631,6 +631,9 @@ func (c *Ctx) rangeClaims(fi *load.FuncInfo, r *shape.Result, rc rangeClaim, pro
 		}
 		e = sym.Subst(e, sub)
 		p := newProver(c, params)
+		for _, pn := range params {
+			p.roles[pn] = paramRole(origName(fi, pn)) // roles come from the pinned names, by position
+		}
 		ok := p.ge0(e, nil)
 		run.Oblige(ok)
 		run.Count("bounds", 1)
